@@ -803,6 +803,12 @@ impl Gen {
             let win = if depth > 0 && self.rng.chance(1, 8) { if self.rng.chance(1, 3) { WinSel::Name(self.name()) } else { WinSel::Query(self.window(depth - 1)) } } else { WinSel::None };
             s.selects.push(SelItem { e: self.ex(depth.min(3)), win, alias: if self.rng.chance(1, 4) { Some(self.name()) } else { None } });
         }
+        // `SELECT ALL(x) ..` reads as the ALL quantifier followed by `(x)`, not as the Postgres function ALL: a select list that
+        // starts with that function is not a statement of the dialect (plain generator: use ANY there)
+        if self.plain && s.distinct.is_none() {
+            fn leftmost(e: &mut Ex) -> &mut Ex { match e { Ex::Bin(l, _, _) => leftmost(l), x => x } }
+            if let Some(first) = s.selects.first_mut() { if let Ex::Func(f @ Fun::Pg(15), _, _) = leftmost(&mut first.e) { *f = Fun::Pg(13); } }
+        }
         if self.rng.chance(9, 10) {
             let nf = if self.rng.chance(1, 8) { 2 } else { 1 };
             for _ in 0..nf { s.from.push(self.tref(depth)); }
